@@ -31,6 +31,8 @@ class Scenario:
     runs = {"quick": 100, "thorough": 1000}
     wall = {"quick": 100, "thorough": 1500}
     rule = ""
+    # minimisation keeps candidates with the same clause (True) or clause + fingerprint
+    min_clause_only = False
     real_components = [
         "all of ufl/ imported from the tree under test (nodes assert ufl.__file__)",
         "CPython pickle",
@@ -67,13 +69,19 @@ class Scenario:
         """-> (violations, stats).  violation = {clause, unit, detail, fingerprint}"""
         raise NotImplementedError
 
+    def final_fingerprint(self, plan, viol):
+        """Fingerprint of a violation computed from its minimised plan."""
+        return viol.get("fingerprint")
+
     def removable(self, plan):
         """Indices of units the minimiser may delete."""
         return list(range(len(plan["units"])))
 
-    def simplify(self, plan):
-        """Yield simpler variants of a plan (beyond unit deletion)."""
+    def simplify(self, plan, phase="post"):
+        """Yield simpler variants of a plan (beyond unit deletion).  phase 'pre' runs
+        before ddmin (cheap structural candidates), 'post' after it."""
         return ()
+
 
     def schedule_digest(self, plan, xp, history):
         h = hashlib.sha1()
@@ -88,6 +96,23 @@ class Scenario:
         return h.hexdigest()[:16]
 
 
+def bypass_candidates(plan, unit_filter=lambda u: True):
+    """Replace an expression-building call by one of its slot operands (DESIGN 2,
+    minimisation): the op becomes an alias, dependents stay well-formed if shapes agree
+    (if not, they are skipped deterministically and the candidate simply fails)."""
+    units = plan["units"]
+    for i in range(len(units) - 1, -1, -1):
+        u = units[i]
+        op = u.get("op")
+        if not op or op[0] != "call" or not unit_filter(u) or op[2] == "sim.ops.identity":
+            continue
+        refs = [a for a in op[3] if isinstance(a, list) and len(a) == 2 and a[0] == "$"]
+        for rf in refs[:2]:
+            q = dict(plan)
+            q["units"] = units[:i] + [dict(u, op=["call", op[1], "sim.ops.identity", [rf]])] + units[i + 1 :]
+            yield q
+
+
 # ----------------------------------------------------------------------------- one run
 
 
@@ -99,7 +124,11 @@ def run_plan(scn, plan, zpool):
     return xp, history, viols, stats, dg
 
 
-def same_violation(v, target):
+def same_violation(v, target, clause_only=False):
+    if bool(v.get("beyond")) != bool(target.get("beyond")):
+        return False
+    if clause_only:
+        return v["clause"] == target["clause"]
     return v["clause"] == target["clause"] and v.get("fingerprint") == target.get("fingerprint")
 
 
@@ -115,7 +144,7 @@ def minimise(scn, plan, target, zpool, cap_s=60.0):
             _, _, viols, _, _ = run_plan(scn, p, zpool)
         except Inconclusive:
             return False
-        return any(same_violation(v, target) for v in viols)
+        return any(same_violation(v, target, scn.min_clause_only) for v in viols)
 
     def without(p, drop):
         q = dict(p)
@@ -123,8 +152,19 @@ def minimise(scn, plan, target, zpool, cap_s=60.0):
         return q
 
     cur = plan
+    # cheap structural simplifications first (drop nodes, neutralise configuration)
+    progress = True
+    while progress and time.monotonic() - t0 < cap_s / 4:
+        progress = False
+        for cand in scn.simplify(cur, phase="pre"):
+            if time.monotonic() - t0 >= cap_s / 4:
+                break
+            if fails(cand):
+                cur = cand
+                progress = True
+                break
     n = 2
-    while time.monotonic() - t0 < cap_s:
+    while time.monotonic() - t0 < cap_s * 0.7:
         rem = scn.removable(cur)
         if not rem:
             break
@@ -132,7 +172,7 @@ def minimise(scn, plan, target, zpool, cap_s=60.0):
         chunk = max(1, len(rem) // n)
         reduced = False
         for start in range(0, len(rem), chunk):
-            if time.monotonic() - t0 >= cap_s:
+            if time.monotonic() - t0 >= cap_s * 0.7:
                 break
             drop = set(rem[start : start + chunk])
             cand = without(cur, drop)
@@ -149,7 +189,7 @@ def minimise(scn, plan, target, zpool, cap_s=60.0):
     progress = True
     while progress and time.monotonic() - t0 < cap_s:
         progress = False
-        for cand in scn.simplify(cur):
+        for cand in scn.simplify(cur, phase="post"):
             if time.monotonic() - t0 >= cap_s:
                 break
             if fails(cand):
@@ -236,7 +276,7 @@ def run_seeded(scn, run_seed, tier, zpool, seen=(), do_min=True, min_cap=60.0, a
                 entry["beyond"] = True
                 res["violations"].append(entry)
                 continue
-            if do_min and key not in seen and len(done) <= 3:
+            if do_min and (scn.min_clause_only or key not in seen) and len(done) <= 3:
                 try:
                     # shrink in the (fast) search pool, then replay-verify twice in freshly
                     # started zygotes with one fork per node; if the shrunk plan does not
@@ -249,7 +289,7 @@ def run_seeded(scn, run_seed, tier, zpool, seen=(), do_min=True, min_cap=60.0, a
                             _, _, v3, _, dg3 = run_plan(scn, mplan, fresh)
                         finally:
                             fresh.close()
-                        m2 = [x for x in v2 if same_violation(x, v)]
+                        m2 = [x for x in v2 if same_violation(x, v, scn.min_clause_only)]
                         if (m2 and dg2 == dg3) or mpool is zpool:
                             break
                     if m2 and dg2 == dg3:
@@ -257,6 +297,8 @@ def run_seeded(scn, run_seed, tier, zpool, seen=(), do_min=True, min_cap=60.0, a
                         entry["min"] = minfo
                         entry["min_units"] = len(mplan["units"])
                         entry["detail"] = m2[0].get("detail")
+                        entry["fingerprint"] = scn.final_fingerprint(mplan, m2[0])
+                        entry["minimised"] = True
                     else:
                         entry["replay"] = write_replay(scn, plan, v, dg, run_seed)
                         entry["min"] = {"failed": "minimised plan did not replay identically"}
@@ -421,6 +463,7 @@ def run_batch(scn, tier, seed, workers=None, runs=None, wall=None, log=print):
         "last_seed": None,
     }
     seen = set()
+    nmin = [0]
     distinct_unlisted = {}
     known_hit = {}
     seeds = [sub_seed(seed, i) for i in range(nruns)]
@@ -441,7 +484,8 @@ def run_batch(scn, tier, seed, workers=None, runs=None, wall=None, log=print):
                 except StopIteration:
                     exhausted = True
                     break
-                pending.add(ex.submit(_wtask, (scn.pid, s, tier, frozenset(seen), True, None)))
+                do_min = nmin[0] < 8
+                pending.add(ex.submit(_wtask, (scn.pid, s, tier, frozenset(seen), do_min, None)))
             if not pending:
                 break
             done, pending = cf.wait(pending, timeout=5, return_when=cf.FIRST_COMPLETED)
@@ -456,7 +500,12 @@ def run_batch(scn, tier, seed, workers=None, runs=None, wall=None, log=print):
                     if v.get("beyond"):
                         agg["beyond"][v["clause"]] = agg["beyond"].get(v["clause"], 0) + 1
                         continue
-                    key = (v["clause"], v.get("fingerprint"))
+                    if scn.min_clause_only and not v.get("minimised"):
+                        key = (v["clause"], "(not minimised)")
+                    else:
+                        key = (v["clause"], v.get("fingerprint"))
+                    if v.get("minimised"):
+                        nmin[0] += 1
                     seen.add(key)
                     kf = _match_known(known, v)
                     if kf is not None:
